@@ -41,6 +41,14 @@ CHECKS = {
   "Reader side: seeded ordered schema trees (depth <= 6, <= 60 nodes, all repetition labelings) emitted by the peer writer with data shredded under the true levels; leaf order, every accessor, lookup by name, node max-level accessors and the levels the column readers really use are compared with the textbook definition. Builder side: seeded add_column/add_group histories up to 400 steps (across capacity growth) with accessors checked after every step under a realloc-always-moves allocator, then written and read back.",
   "Trusted: textbook level definition in the model, peer writer's Dremel shredding (self-checked by the peer reader). What the simulator adds beyond generation is modest (I/O mode, allocator movement, op history).",
   "deterministic simulation: peer-written nested schemas + builder op histories vs textbook definition", "7 C17"),
+ "C18": ("fault_enumeration",
+  "Per generated scenario the fault space is enumerated rather than sampled: every proper prefix of the written image (crash at any byte; exhaustive up to 6 KiB, else tail + write boundaries + samples) presented through the three open paths, every sink write failing with EIO, ENOSPC budgets around every write boundary, flush-time and close failures under four stdio buffering modes, and carquet_writer_abort after every prefix of the call history. Exhaustive per scenario, sampled over scenarios.",
+  "Trusted: cookie-stream sink over real glibc stdio (short count = error, probed), the peer reader as the judge of 'prefix is itself a complete file', the allocation ledger for leaks. Not exhaustive over scenarios.",
+  "deterministic simulation: crash-point, sink-fault and abort-point enumeration per seeded write history", "7 C18"),
+ "C19": ("fault_enumeration",
+  "Per generated scenario (schema build, write per codec in path/FILE* mode, open+metadata+reads+skip in three transports, batch reads) a dry run numbers the K tracked allocation requests made inside API calls (carquet, zlib, zstd) and request k is failed for every k, plus every fopen and ZSTD_createDCtx returning NULL; thorough tier adds seeded multi-failure runs. Oracle: error reported or effect identical to the fault-free run, correct prefix before an error, handles still releasable, ledger empty, no sanitizer report.",
+  "Trusted: link-time malloc/calloc/realloc/free/strdup wrappers over ASan's allocator (ledger exact and deterministic), statically linked zlib/zstd so their requests are numbered too. Allocations of the process-lifetime per-thread ZSTD context are not fault sites.",
+  "deterministic simulation: k-th allocation failure enumeration per seeded scenario with exact leak ledger", "7 C19"),
 }
 def chk(pid):
     cat,text,note,tech,ref = CHECKS[pid]
